@@ -372,6 +372,8 @@ def run_property(prop, modname, tier, seed, meta, jobs=None, budget_s=None):
         opts["second"] = float(os.environ["VERIF_SECOND"])
     if "VERIF_CROSSVAL" in os.environ:
         opts["crossval"] = float(os.environ["VERIF_CROSSVAL"])
+    if budget_s is None:
+        budget_s = float(os.environ.get("VERIF_BUDGET_S", "0")) or (1500 if tier == "quick" else 6 * 3600)
     if budget_s:
         opts["deadline"] = t0 + budget_s
     jobs = jobs or int(os.environ.get("VERIF_JOBS", "0")) or min(16, os.cpu_count() or 1)
